@@ -160,6 +160,8 @@ Result(r) ==
        \cup V(~r.ok /\ ~Invalid /\ ~cfg.nul /\ ~StatusUnreadable => ~didExec, "C07_err_only_if_not_started")
        \cup V(cfg.has_fault /\ ~Invalid /\ ~cfg.nul /\ ~r.ok /\ r.errkind = "io" => r.errno = cfg.fault_errno, "C07_errno_of_failing_step")
        \cup V(cfg.has_fault /\ ~Invalid /\ ~cfg.nul /\ cfg.fault_kind # "close" /\ ~StatusReadInterrupted => ~r.ok, "C07_failure_reported")
+       \* C18: when the child's signal state cannot be reset the program must not be started with the inherited one
+       \cup V(cfg.has_fault /\ cfg.fault_kind = "signal" => ~r.ok /\ ~didExec, "C18_no_program_without_clean_signal_state")
        \cup V(~cfg.expect_start /\ ~cfg.has_fault => ~r.ok /\ r.errkind = "io", "C07_failure_reported")
        \cup V(~cfg.expect_start /\ ~cfg.has_fault /\ cfg.class \in {"path-only-empty-local", "path-slash", "path-empty", "path-unset"}
                 => ~r.ok /\ r.errkind = "io", "C15_error_when_nothing_startable")
@@ -195,6 +197,9 @@ StdNotStray(rt) ==
   \A i \in 0..2 : (i \in DOMAIN rt /\ rt[i].ino \in libpipes) =>
      \/ StreamCfg(i) = "pipe"
      \/ StreamCfg(i) = "merge" /\ StreamCfg(IF i = 2 THEN 1 ELSE 2) = "pipe"
+     \* (or the caller itself passed an end of a pipe of another Popen as this stream: a hand-made pipeline)
+     \/ StreamCfg(i) \in {"file", "dup", "rc"}
+     \/ StreamCfg(i) = "merge" /\ StreamCfg(IF i = 2 THEN 1 ELSE 2) \in {"file", "dup", "rc"}
 
 Dedupe(env) ==
   LET n == Len(env)
